@@ -68,10 +68,60 @@ def plain_ops(ops):
     return [[o[0], list(o[1])] + ([list(o[2])] if len(o) > 2 and o[2] else []) for o in ops]
 
 
-def build_circuit(n, ops, registers=None, metadata=None):
+def idiomatic(ops, salt):
+    """The same Clifford circuit written with other qiskit idioms (the library accepts 'a QuantumCircuit that has only Clifford
+    gates'): runs of Pauli gates on distinct qubits as one `pauli` instruction (label little-endian: last character acts on the
+    first listed qubit), h-s-h as sx, h-sdg-h as sxdg, sdg(t)-cx(c,t)-s(t) as cy, barriers, and a chunk of consecutive gates
+    wrapped into a sub-circuit appended as a gate / instruction on its qubits.  Plain ops stay the oracle's description; all
+    choices come from random.Random(salt).  Returns extended ops: additionally ('pauli', qs, (label,)), ('sx'|'sxdg', (q,)),
+    ('cy', (c, t)), ('barrier', ()), ('sub', qs, (subops, as_gate))."""
+    import random
+    rng = random.Random(int(salt))
+    ops = [(o[0], tuple(o[1])) for o in ops]
+    out = []
+    i = 0
+    while i < len(ops):
+        name, qs = ops[i]
+        # sx / sxdg / cy peepholes
+        if i + 2 < len(ops) and name == "h" and ops[i + 2] == ("h", qs) and ops[i + 1] in (("s", qs), ("sdg", qs)) and rng.random() < 0.8:
+            out.append(("sx" if ops[i + 1][0] == "s" else "sxdg", qs)); i += 3; continue
+        if i + 2 < len(ops) and name == "sdg" and ops[i + 1][0] == "cx" and ops[i + 1][1][1] == qs[0] and ops[i + 2] == ("s", qs) and rng.random() < 0.8:
+            out.append(("cy", ops[i + 1][1])); i += 3; continue
+        if name in ("x", "y", "z"):
+            j, seen, run = i, set(), []
+            while j < len(ops) and ops[j][0] in ("x", "y", "z") and ops[j][1][0] not in seen:
+                seen.add(ops[j][1][0]); run.append(ops[j]); j += 1
+            if len(run) >= 2 and rng.random() < 0.8:
+                rng.shuffle(run)            # Paulis on distinct qubits commute up to nothing at all
+                out.append(("pauli", tuple(o[1][0] for o in run), ("".join(o[0].upper() for o in reversed(run)),)))
+                i = j; continue
+        out.append((name, qs)); i += 1
+    # wrap one chunk of plain gates into a sub-circuit
+    if len(out) >= 2 and rng.random() < 0.6:
+        a = rng.randrange(len(out)); b = min(len(out), a + rng.randrange(1, 7))
+        chunk = out[a:b]
+        if all(o[0] not in ("pauli", "barrier") for o in chunk):
+            qs = []
+            for o in chunk:
+                for q in o[1]:
+                    if q not in qs:
+                        qs.append(q)
+            rng.shuffle(qs)
+            pos = {q: k for k, q in enumerate(qs)}
+            subops = [(o[0], tuple(pos[q] for q in o[1])) for o in chunk]
+            out[a:b] = [("sub", tuple(qs), (subops, rng.random() < 0.5))]
+    for _ in range(rng.randrange(0, 3)):
+        out.insert(rng.randrange(len(out) + 1), ("barrier", ()))
+    return out
+
+
+def build_circuit(n, ops, registers=None, metadata=None, form_salt=0):
     """QuantumCircuit from plain ops (name, qubits[, params]) over the documented vocabulary.  `registers` = list of register
-    sizes summing to n (qubit indices in ops stay circuit-wide indices); `metadata` = dict put on the circuit."""
+    sizes summing to n (qubit indices in ops stay circuit-wide indices); `metadata` = dict put on the circuit; `form_salt` != 0
+    writes the same circuit with other qiskit idioms (see idiomatic)."""
     L = lib()
+    if form_salt:
+        ops = idiomatic(ops, form_salt)
     if registers and len(registers) > 1 and sum(registers) == n:
         from qiskit import QuantumRegister
         qc = L.QuantumCircuit(*[QuantumRegister(sz, f"r{i}") for i, sz in enumerate(registers)])
@@ -84,6 +134,19 @@ def build_circuit(n, ops, registers=None, metadata=None):
         params = tuple(op[2]) if len(op) > 2 and op[2] else ()
         if name == "id":
             qc.id(qs[0])
+        elif name == "barrier":
+            qc.barrier()
+        elif name == "sub":
+            subops, as_gate = op[2]
+            sc = L.QuantumCircuit(len(qs))
+            for so in subops:
+                if so[0] == "id":
+                    sc.id(so[1][0])
+                else:
+                    getattr(sc, so[0])(*so[1])
+            qc.append(sc.to_gate() if as_gate else sc.to_instruction(), list(qs))
+        elif name == "pauli":
+            qc.pauli(params[0], list(qs))
         else:
             getattr(qc, name)(*params, *qs)
     return qc
